@@ -209,7 +209,7 @@ func (r *reader) readFloat32(tag byte) (float32, error) {
 func read(r io.Reader) (map[byte][]bucket, error) {
 	var h = map[byte][]bucket{}
 
-	var tag, n byte
+	var tag, n, lastTag byte
 	var lastItemWasDelimiter bool
 	for {
 		if err := binary.Read(r, binary.LittleEndian, &tag); err != nil {
@@ -229,7 +229,8 @@ func read(r io.Reader) (map[byte][]bucket, error) {
 
 		if len(v) > 0 {
 			if l, ok := h[tag]; ok {
-				if lastItemWasDelimiter {
+				// only the item directly before can be continued
+				if lastItemWasDelimiter || tag != lastTag {
 					h[tag] = append(l, v)
 				} else {
 					l[len(l)-1] = append(l[len(l)-1], v...)
@@ -240,6 +241,7 @@ func read(r io.Reader) (map[byte][]bucket, error) {
 		}
 
 		lastItemWasDelimiter = tag == 0 && n == 0
+		lastTag = tag
 	}
 
 	return h, nil
